@@ -1,7 +1,10 @@
 (* C06 — every diagnostic points into the element, line and columns that caused it (position part).
    Models: Position.v (position_index_t, PositionTracker as driven by the lexer, add_error's lookup). *)
 From Coq Require Import List Arith.
-From Utap Require Import Position XPath.
+From Coq Require Import Bool Ascii String.
+From Utap Require Import Position XPath CommentLex LexModel LexProofs LexSep LexLines.
+From Utap.gen Require Import Gen_LexRules Gen_NewlineActions.
+Notation length := List.length (only parsing).      (* String.length is not meant anywhere in this file *)
 Import ListNotations.
 
 (* the binary search of position_index_t::find returns the last entry at or before the position, on every table
@@ -46,3 +49,32 @@ Proof. vm_compute. split; reflexivity. Qed.
 Example C06_example :    (* "a\n\n  b": token a, two line feeds, two blanks, token b; offset 5 is 'b': line 3, column 2 *)
   resolve [mkl 1 0; mkl 2 2; mkl 2 0; mkl 1 0] 0 5 1 0 = (3, 3).
 Proof. reflexivity. Qed.
+
+(* ---- line numbers: which line breaks the scanner reports to the position tracker (LexLines.v over the scanner model of LexModel.v) ---- *)
+(* the rules of lexer.l that call tracker.newline, and what they pass, are the four modelled ones (regenerated from lexer.l) *)
+Theorem C06_newline_actions_are_the_modelled_ones : gen_newline_actions = reference_newline_actions.
+Proof. reflexivity. Qed.
+Print Assumptions C06_newline_actions_are_the_modelled_ones.
+Lemma gen_literals_have_no_line_feed : forall t tok, In (t, tok) gen_literals -> forallb nonnl (list_ascii_of_string t) = true.
+Proof.
+  assert (forallb (fun tt => forallb nonnl (list_ascii_of_string (fst tt))) gen_literals = true) as H by (vm_compute; reflexivity).
+  intros t tok Hin. rewrite forallb_forall in H. exact (H (t, tok) Hin).
+Qed.
+(* outside comments and string literals, one step of the scanner reports exactly the line feeds it consumes *)
+Theorem C06_step_reports_its_line_feeds : forall c r, lex1 gen_literals (c :: r) <> Comment -> (forall n, lex1 gen_literals (c :: r) <> Tok KString n) ->
+  lines_of (lex1 gen_literals (c :: r)) = count_nl (firstn (lexeme_len (lex1 gen_literals (c :: r))) (c :: r)).
+Proof. exact (step_lines_exact gen_literals gen_literals_have_no_line_feed). Qed.
+Print Assumptions C06_step_reports_its_line_feeds.
+(* inside a comment every line feed is reported by the comment's own rule *)
+Theorem C06_comment_reports_its_line_feeds : forall fuel s rest, scan fuel s = Closed rest -> count_nl s = scan_lines fuel s + count_nl rest.
+Proof. exact scan_lines_exact. Qed.
+Print Assumptions C06_comment_reports_its_line_feeds.
+(* over a whole text: line breaks reported + line feeds inside string literals = line feeds of the text.  The line of a diagnostic is
+   therefore exact as long as no string literal spans lines, and otherwise lags by exactly the breaks inside the strings scanned so
+   far: the known finding C06-string-literal-newline, with its size *)
+Theorem C06_reported_lines : forall fuel s rep strs, lex_lines gen_literals fuel s = Some (rep, strs) -> rep + strs = count_nl s.
+Proof. exact (reported_lines_exact gen_literals gen_literals_have_no_line_feed). Qed.
+Print Assumptions C06_reported_lines.
+Example C06_string_literal_hides_a_line_break :
+  let t := list_ascii_of_string ("""a" ++ String (ascii_of_nat 10) "b"" zz") in lex_lines gen_literals 10 t = Some (0, 1) /\ count_nl t = 1.
+Proof. split; vm_compute; reflexivity. Qed.
